@@ -28,10 +28,12 @@ def node_hook(interp: Interp, args, kwargs, node):
         n.text = texts[0]
     for a in rest:
         if isinstance(a, NodeVal):
+            n.adopt(a)
             n.children.append(a)
         elif isinstance(a, GenList | list | tuple):
             for c in a:
                 if c is not None:
+                    n.adopt(c)
                     n.children.append(c)
         elif isinstance(a, int | float) and not isinstance(a, bool):
             n.text = str(a)
